@@ -190,6 +190,9 @@ func runCheck(repo, prop, tier string, update bool) int {
 		return nil
 	}
 	replayDir := filepath.Join(verifRoot, "replay", prop)
+	if noEvidence {
+		replayDir = filepath.Join(os.TempDir(), "govc-selftest-replay", prop)
+	}
 	os.MkdirAll(replayDir, 0o755)
 
 	var (
@@ -430,9 +433,11 @@ func runCheck(repo, prop, tier string, update bool) int {
 		"wall_s":      time.Since(t0).Seconds(),
 		"violations":  len(violations) + len(probeViolations),
 	}
-	os.MkdirAll(filepath.Join(verifRoot, "evidence"), 0o755)
 	data, _ := json.MarshalIndent(ev, "", " ")
-	os.WriteFile(filepath.Join(verifRoot, "evidence", prop+".json"), data, 0o644)
+	if !noEvidence {
+		os.MkdirAll(filepath.Join(verifRoot, "evidence"), 0o755)
+		os.WriteFile(filepath.Join(verifRoot, "evidence", prop+".json"), data, 0o644)
+	}
 	fmt.Printf("property %s: %d/%d obligations discharged, %d undecided, %d violations, %d bounded checks, %.1fs\n", prop, nDis, nObl, len(undecided), len(violations)+len(probeViolations), len(boundedReports), time.Since(t0).Seconds())
 	return exit
 }
